@@ -67,6 +67,7 @@ type Run struct {
 	Exhaustive   bool
 	quiet        bool
 	ReplayOnly   bool
+	Extra        map[string]any // additional coverage keys (level-specific)
 }
 
 func NewRun(prop, tier string, seed int64) *Run {
@@ -344,6 +345,9 @@ func (r *Run) Finish(minNonTrivial int) int {
 	}
 	if len(r.samples) == 0 {
 		cov["samples"] = []any{"(no sample recorded)"}
+	}
+	for k, v := range r.Extra {
+		cov[k] = v
 	}
 	ev := evidence{PropertyID: r.Prop, Tier: r.Tier, Seed: r.Seed, Level: r.Level, Coverage: cov,
 		Assumptions: r.Assumptions, WallS: time.Since(r.start).Seconds(), Violations: len(r.violClasses)}
